@@ -426,9 +426,9 @@ def inject_fault(rnd, ast, fault):
             return False
         c, it = rnd.choice(cand)
         if fault == "table-short":
-            it[1].pop(rnd.randrange(len(it[1])))
-            if not it[1]:
+            if len(it[1]) < 2:
                 return False
+            it[1].pop(rnd.randrange(len(it[1])))
         else:
             it[1].insert(rnd.randrange(len(it[1]) + 1), Fr(0))
         return True
@@ -528,10 +528,14 @@ def inject_fault(rnd, ast, fault):
         return True
     if fault == "type-count":
         v = rnd.choice(vars_)
+        if not v["types"]:
+            return False
         v["types"][0][0] += rnd.choice([1, -1]) if v["types"][0][0] > 1 else 1
         return True
     if fault == "dup-domain":
         v = rnd.choice(vars_)
+        if not v["types"]:
+            return False
         vals = v["types"][0][1]
         if rnd.random() < 0.5:
             vals.append(vals[0])
@@ -547,6 +551,8 @@ def inject_fault(rnd, ast, fault):
         return True
     if fault == "two-types":
         v = rnd.choice(vars_)
+        if not v["types"]:
+            return False
         v["types"].append([v["types"][0][0], list(v["types"][0][1])])
         return True
     raise ValueError(fault)
